@@ -73,9 +73,29 @@ def _cpow(c, s, n):
     return cr, sr
 
 
+def _opaque_cos_sin(x):
+    """cos / sin as two uninterpreted functions of the argument (congruence only, values in [-1, 1]): enough where the
+    property does not depend on the trigonometric values themselves (side-effect freedom, C16)."""
+    import mpmath
+    from .core import Cond
+
+    ctx = core.CTX
+    x = Sym._co(core.force(x))
+    v = ctx.value(x)
+
+    def info(a):
+        return [Cond.poly((a + 1).num, ">="), Cond.poly((a - 1).num, "<=")]
+
+    c = Sym(ctx.opaque_atom("cos", [x], mpmath.cos(v), info).gen)
+    s = Sym(ctx.opaque_atom("sin", [x], mpmath.sin(v), info).gen)
+    return c, s
+
+
 def cos_sin(x):
     ctx = core.CTX
     if not getattr(ctx, "phases", None):
+        if getattr(ctx, "trig_opaque", False):
+            return _opaque_cos_sin(x)
         raise NotImplementedError("trigonometric function of a symbolic real without declared phases")
     ns = _decompose(x)
     if ns is None:
